@@ -36,7 +36,9 @@ type pkgRules struct {
 
 var rules = []pkgRules{
 	{dir: "cache/disk", locks: true, lruGuard: true, selects: true,
-		calls: []string{"os.Open", "os.OpenFile", "os.Remove", "os.Rename", "tfc.Create", ".Sync", "io.Copy"}},
+		// (.Done / req.onProxyMiss: the hand-over between a backend lookup
+		// worker, the wait-group waiter and the requesting goroutine)
+		calls: []string{"os.Open", "os.OpenFile", "os.Remove", "os.Rename", "tfc.Create", ".Sync", "io.Copy", ".Done", "req.onProxyMiss"}},
 	{dir: "cache/disk/casblob", locks: false,
 		calls: []string{"binary.Write", ".Sync", "f.Write", "io.Copy"}},
 	{dir: "utils/tempfile", locks: false,
@@ -451,6 +453,16 @@ func (w *rewriter) rewriteNested(stmt ast.Stmt) {
 		s.Body.List = w.rewriteList(s.Body.List)
 	case *ast.RangeStmt:
 		s.Body.List = w.rewriteList(s.Body.List)
+		// `for req := range c.containsQueue`: a pool of identical workers;
+		// the worker is labelled by the item it took (R7)
+		if sel, ok := s.X.(*ast.SelectorExpr); ok && sel.Sel.Name == "containsQueue" && w.r.locks {
+			if id, ok := s.Key.(*ast.Ident); ok {
+				hash := &ast.SelectorExpr{X: &ast.ParenExpr{X: &ast.StarExpr{X: &ast.SelectorExpr{X: ast.NewIdent(id.Name), Sel: ast.NewIdent("digest")}}}, Sel: ast.NewIdent("Hash")}
+				w.point("R7")
+				alias := hookCall("Alias", &ast.BinaryExpr{X: strLit("cw:"), Op: token.ADD, Y: hash})
+				s.Body.List = append([]ast.Stmt{alias}, s.Body.List...)
+			}
+		}
 	case *ast.SwitchStmt:
 		w.rewriteNested(s.Body)
 	case *ast.TypeSwitchStmt:
